@@ -9,7 +9,8 @@
 (*   wcall / dcall (t, i, f)   Build(t)      (the entry <<t,i>> exists)    *)
 (*   wret                      Ret(t)        dret            Discard(t)    *)
 (*   check (f, rot)            WDestOne(rot) for destination f             *)
-(*   writev (f, entries)       = what that WDestOne appended to file f     *)
+(*   writev (f, cnt, entries)  WWritev: the next chunk (<= IOV_MAX         *)
+(*                             segments) of that destination's list        *)
 (*   ccall                     CCall         cret            CJoin         *)
 (* Everything the queue does in between (ticket, publish, the writer's     *)
 (* pops / releases / back-off, the closer's marker) is not logged at this  *)
@@ -21,13 +22,12 @@ EXTENDS Appender, Json, IOUtils
 
 Tr == ndJsonDeserialize(IOEnv.TRACE)
 
-VARIABLES l,      \* next line to explain
-          lastw   \* what the last WDestOne wrote and the code has not yet confirmed: [f, ents]
+VARIABLES l       \* next line to explain
 
-tvars == <<vars, l, lastw>>
-NoW == [f |-> -1, ents |-> << >>]
+tvars == <<vars, l>>
 
-CfgOf(e) == [prog |-> e.prog, cap |-> e.cap, maxrot |-> 64, early |-> FALSE]
+\* every op carries the number of segments (pages + page-table pages) the real entry had
+CfgOf(e) == [prog |-> e.prog, cap |-> e.cap, maxrot |-> 64, early |-> FALSE, iovmax |-> e.iovmax]
 
 \* the next execution starts from the initial state of its configuration (InitFor, primed)
 ResetFor(c) ==
@@ -36,7 +36,7 @@ ResetFor(c) ==
   /\ cells' = << >> /\ popIdx' = 0 /\ relIdx' = 0
   /\ tk' = [t \in 0..Len(c.prog) |-> 0]
   /\ cpc' = "wait"
-  /\ wpc' = "pop" /\ wn' = 0 /\ wfull' = FALSE /\ stop' = FALSE /\ wdi' = 1
+  /\ wpc' = "pop" /\ wn' = 0 /\ woff' = 0 /\ wfull' = FALSE /\ stop' = FALSE /\ wdi' = 1
   /\ dests' = << >> /\ iov' = [f \in Files |-> << >>]
   /\ gen' = [f \in Files |-> 0] /\ rots' = 0
   /\ content' = [f \in Files |-> << >>]
@@ -44,16 +44,18 @@ ResetFor(c) ==
   /\ wdone' = {} /\ must' = {} /\ discarded' = {}
 
 TInit ==
-  /\ l = 2 /\ lastw = NoW
+  /\ l = 2
   /\ Tr[1].k = "reset"
   /\ InitFor(CfgOf(Tr[1]))
   /\ TLCSet(1, 1) /\ TLCSet(2, {})
 
 Progress == TLCSet(1, IF TLCGet(1) < l' THEN l' ELSE TLCGet(1))
 
-\* entries (in order) of a scatter list of the model
-RECURSIVE EntsOf(_)
-EntsOf(q) == IF q = << >> THEN << >> ELSE IF Head(q)[2] = 1 THEN <<Head(q)[1]>> \o EntsOf(Tail(q)) ELSE EntsOf(Tail(q))
+\* the entries (in order, without repetition) a chunk of the model's scatter list belongs to
+EntsOf(q) == LET keep == {i \in 1..Len(q) : i = 1 \/ q[i][1] # q[i - 1][1]}
+                 idx(k) == CHOOSE i \in keep : Cardinality({j \in keep : j <= i}) = k
+             IN [k \in 1..Cardinality(keep) |-> q[idx(k)][1]]
+ChunkLen == LET f == dests[wdi] IN IF Len(iov[f]) - woff < IOVMax THEN Len(iov[f]) - woff ELSE IOVMax
 
 Visible ==
   /\ l <= Len(Tr)
@@ -61,25 +63,23 @@ Visible ==
      IN CASE e.k \in {"wcall", "dcall"} ->
                /\ e.t \in Loggers /\ Cur(e.t) = <<e.t, e.i>> /\ ~Finished(e.t)
                /\ OpOf(Cur(e.t)).k = (IF e.k = "wcall" THEN "w" ELSE "d") /\ (e.k = "wcall" => OpOf(Cur(e.t)).f = e.f)
-               /\ Build(e.t) /\ UNCHANGED lastw
-          [] e.k = "wret" -> e.t \in Loggers /\ Ret(e.t) /\ UNCHANGED lastw
-          [] e.k = "dret" -> e.t \in Loggers /\ Discard(e.t) /\ UNCHANGED lastw
+               /\ Build(e.t)
+          [] e.k = "wret" -> e.t \in Loggers /\ Ret(e.t)
+          [] e.k = "dret" -> e.t \in Loggers /\ Discard(e.t)
           [] e.k = "check" ->
-               /\ lastw.ents = << >>
                /\ wpc = "dest" /\ wdi <= Len(dests) /\ dests[wdi] = e.f
                /\ WDestOne(e.rot)
-               /\ lastw' = [f |-> e.f, ents |-> EntsOf(iov[e.f])]
           [] e.k = "writev" ->
-               /\ lastw.f = e.f /\ lastw.ents # << >> /\ lastw.ents = e.ents
-               /\ lastw' = NoW /\ UNCHANGED vars
-          [] e.k = "ccall" -> CCall /\ UNCHANGED lastw
-          [] e.k = "cret" -> lastw.ents = << >> /\ CJoin /\ UNCHANGED lastw
+               /\ wpc = "wv" /\ dests[wdi] = e.f
+               /\ ChunkLen = e.cnt
+               /\ EntsOf(SubSeq(iov[e.f], woff + 1, woff + ChunkLen)) = e.ents
+               /\ WWritev
+          [] e.k = "ccall" -> CCall
+          [] e.k = "cret" -> CJoin
           [] e.k = "end" ->
-               /\ (e.status = "ok" => cpc = "done" /\ lastw.ents = << >> /\ \A t \in Loggers : Finished(t))
-               /\ UNCHANGED <<vars, lastw>>
-          [] e.k = "reset" ->
-               /\ ResetFor(CfgOf(e))
-               /\ lastw' = NoW
+               /\ (e.status = "ok" => cpc = "done" /\ \A t \in Loggers : Finished(t))
+               /\ UNCHANGED vars
+          [] e.k = "reset" -> ResetFor(CfgOf(e))
           [] OTHER -> FALSE
   /\ l' = l + 1
   /\ (Tr[l].k # "reset" => UNCHANGED cfg)
@@ -89,9 +89,8 @@ Silent ==
   /\ l <= Len(Tr) /\ Tr[l].k # "reset"
   /\ \/ \E t \in Loggers : Ticket(t) \/ Fill(t)
      \/ CTicket \/ CCheck
-     \/ WPop1 \/ WRel1 \/ WPop2 \/ WRel2 \/ WBackoff
-     \/ (lastw.ents = << >> /\ WDestDone)
-  /\ UNCHANGED <<cfg, l, lastw>>
+     \/ WPop1 \/ WRel1 \/ WPop2 \/ WRel2 \/ WBackoff \/ WDestDone \/ WFree
+  /\ UNCHANGED <<cfg, l>>
 
 TNext == (Visible \/ Silent) /\ Progress
 TSpec == TInit /\ [][TNext]_tvars
